@@ -30,7 +30,11 @@ RULE = ('real directory trees under a per-case temporary directory (depth<=4, '
         'new one when nesting and not visible otherwise, ValueError for a '
         'rule path that is a regular file, missing path skipped. '
         'Non-trivial = nested directories with an extension filter, or a key '
-        'conflict, or repeated population.')
+        'conflict, or repeated population.'
+        ' Rounds 9-13 added: roots in non-normal spellings (x/.., //, /./,'
+        ' relative, the working directory itself), a rule directory outside'
+        ' the root, a factory that re-enters the populator, names repeating'
+        ' the text of an extension.')
 ANCHORS = [
     'desper/model/__init__.py::DirectoryResourcePopulator.__call__',
     'desper/model/__init__.py::DirectoryResourcePopulator.add_rule',
